@@ -17,6 +17,7 @@ import (
 	"0chain.net/smartcontract/zcnsc"
 	"verif/lib/chainsim"
 	"verif/lib/ev"
+	"verif/lib/vmap"
 	"verif/lib/world"
 )
 
@@ -369,14 +370,18 @@ func leavesHash(ls []world.Leaf) string {
 	return hex.EncodeToString(h.Sum(nil)[:8])
 }
 
-// repeatCheck executes every update with >= 2 rejected-class entries N times on fresh blocks over
-// genesis and compares status, output and resulting state: the outcome of a governance transaction
-// (and hence the settings in force) must be the same on every node. With first-error-wins over an
-// unordered map the error text would differ between executions.
-func repeatCheck(run *ev.Run, w *world.World, acts []chainsim.Action, n int) {
+// orderCheck executes every owner update with >= 2 bad entries once per map iteration order the
+// maporder seam can produce (all n! permutations for n <= 3 keys) on fresh blocks over genesis and
+// compares status, output and resulting state: the outcome of a governance transaction (and hence
+// the settings in force) must not depend on the order in which a node happens to visit the map.
+// The seam rewrites every `for k, v := range <settings map>` of the current (or mutated) source;
+// where the code sorts its keys nothing is rewritten and all orders coincide trivially.
+func orderCheck(run *ev.Run, w *world.World, acts []chainsim.Action) {
 	g := w.GenesisNode()
 	root := &chainsim.SNode{N: g, Leaves: world.Leaves(g.State), Path: []string{"genesis"}}
 	cases, execs := 0, 0
+	calls0 := vmap.Calls
+	defer func() { vmap.Choice = 0 }()
 	for i := range acts {
 		a := &acts[i]
 		gc := govCases[a.Name]
@@ -394,33 +399,36 @@ func repeatCheck(run *ev.Run, w *world.World, acts []chainsim.Action, n int) {
 		}
 		cases++
 		first := ""
-		for rep := 0; rep < n; rep++ {
+		for choice := 0; choice < vmap.NumOrders(len(gc.Entries)); choice++ {
 			x := &chainsim.Ctx{W: w, N: root, Now: g.Block.CreationDate + 1, Rnd: 1}
 			spec := a.Build(x)
 			spec.Time = x.Now
 			w.Chain.SetupStateCache()
-			nd := w.Open(g, 1, x.Now, w.Miners[0], 1001, fmt.Sprintf("repeat/%s/%d", a.Name, rep))
+			nd := w.Open(g, 1, x.Now, w.Miners[0], 1001, fmt.Sprintf("order/%s/%d", a.Name, choice))
 			t := w.Txn(*spec)
+			vmap.Choice = choice
 			_, err := w.Exec(nd, t)
+			vmap.Choice = 0
 			w.CloseBlock(nd)
 			execs++
 			got := fmt.Sprintf("err=%v status=%d output=%s state=%s", err, t.Status, t.TransactionOutput, leavesHash(world.Leaves(nd.State)))
-			if rep == 0 {
+			if choice == 0 {
 				first = got
 			} else if got != first {
 				kind := "rejection-output"
 				if strings.SplitN(got, "state=", 2)[1] != strings.SplitN(first, "state=", 2)[1] {
 					kind = "resulting-state"
 				}
-				run.Violation(fmt.Sprintf("C48:%s.%s:%s-differs-between-executions-of-the-same-update", gc.F.SC, gc.F.Fn, kind),
-					fmt.Sprintf("update {%s} executed twice on the same state: [%s] vs [%s]", classList(gc.Entries), first, got),
-					map[string]any{"path": []string{"genesis", a.Name}, "repetitions": n})
+				run.Violation(fmt.Sprintf("C48:%s.%s:%s-depends-on-map-iteration-order", gc.F.SC, gc.F.Fn, kind),
+					fmt.Sprintf("update {%s} executed on the same state under key order 0 and %d: [%s] vs [%s]", classList(gc.Entries), choice, first, got),
+					map[string]any{"path": []string{"genesis", a.Name}, "map_order_choice": choice})
 				break
 			}
 		}
 	}
-	run.Extra["repeat_cases"] = cases
-	run.Extra["repeat_executions"] = execs
+	run.Extra["map_order_cases"] = cases
+	run.Extra["map_order_executions"] = execs
+	run.Extra["map_order_seam_calls"] = vmap.Calls - calls0
 	run.Add(0, int64(execs), int64(execs))
 }
 
@@ -454,9 +462,9 @@ func c48(run *ev.Run) {
 		roots = [][]chainsim.Action{{}, {call(w, "owner", "minersc", "add_hardfork", map[string]any{"fields": map[string]string{"demeter": "1"}}, 0, 0, "{demeter@1}")}}
 	}
 	if os_Getenv("VERIF_SHARD") == "" {
-		repeatCheck(run, w, acts, 20)
+		orderCheck(run, w, acts)
 	}
-	run.Rule = "per contract: BFS over all sequences up to the depth bound of settings updates by {owner, client, miner} carrying EVERY map of <= 3 entries from {valid, second valid, immutable/unknown, unparsable, failing validation, jointly inconsistent} (+ commit_settings_changes by owner/stranger and a post-'demeter' start state for storagesc); oracle on the settings nodes of ALL contracts: change => accepted settings function of that contract, caller == owner recorded in the pre-state (storage commit: applies staged owner changes), no immutable/unknown/unparsable entry, stored node passes the contract's own validate; not accepted => every settings node byte-identical; plus 20 executions of every update with >= 2 bad entries on the same state must give identical status, output and state"
+	run.Rule = "per contract: BFS over all sequences up to the depth bound of settings updates by {owner, client, miner} carrying EVERY map of <= 3 entries from {valid, second valid, immutable/unknown, unparsable, failing validation, jointly inconsistent} (+ commit_settings_changes by owner/stranger and a post-'demeter' start state for storagesc); oracle on the settings nodes of ALL contracts: change => accepted settings function of that contract, caller == owner recorded in the pre-state (storage commit: applies staged owner changes), no immutable/unknown/unparsable entry, stored node passes the contract's own validate; not accepted => every settings node byte-identical; plus: every owner update with >= 2 bad entries is executed under every map iteration order offered by the maporder seam (all n! orders for n <= 3) on the same state and must give identical status, output and state"
 	_ = json.Marshal
 	explore(run, w, acts, roots, run.Pick(2, 3), true, 50, 780, govMonitor)
 }
